@@ -9,6 +9,7 @@ import (
 	"strings"
 	"testing"
 
+	"verifsim/resp"
 	"verifsim/sched"
 )
 
@@ -142,6 +143,33 @@ func checkCommon(e *env) {
 	}
 }
 
+// txPosition classifies command i of a batch relative to a MULTI ... EXEC block inside the same batch.
+func txPosition(cmds []CmdSpec, i int) (string, bool) {
+	in := false
+	for j := 0; j <= i; j++ {
+		switch strings.ToUpper(cmds[j].Argv[0]) {
+		case "MULTI":
+			if j == i {
+				return "multi", true
+			}
+			in = true
+		case "EXEC":
+			if j == i {
+				if in {
+					return "exec", true
+				}
+				return "", false
+			}
+			in = false
+		default:
+			if j == i && in {
+				return "queued", true
+			}
+		}
+	}
+	return "", false
+}
+
 func parseUID(uid string) (task, call, k int, ok bool) {
 	if _, err := fmt.Sscanf(uid, "t%d.c%d.k%d", &task, &call, &k); err != nil {
 		return 0, 0, 0, false
@@ -223,6 +251,27 @@ func checkRepliesOwnInOrder(e *env, prop string, faultFree bool) {
 					continue
 				}
 				exp, known := expectedReply(argv)
+				// commands between MULTI and EXEC of the same batch are answered with QUEUED, EXEC with the array of their replies
+				if tx, ok := txPosition(spec.Cmds, i); ok {
+					switch tx {
+					case "queued":
+						exp, known = resp.Simple("QUEUED"), true
+					case "multi":
+						exp, known = resp.OK(), true
+					case "exec":
+						arr := resp.Arr()
+						known = true
+						for j := i - 1; j >= 0 && strings.ToUpper(spec.Cmds[j].Argv[0]) != "MULTI"; j-- {
+							v, ok := expectedReply(spec.Cmds[j].Argv)
+							if !ok {
+								known = false
+								break
+							}
+							arr.A = append([]resp.Value{v}, arr.A...)
+						}
+						exp = arr
+					}
+				}
 				if !known {
 					out.notJudged("reply-not-a-function-of-argv")
 					continue
